@@ -138,15 +138,16 @@ class FakeGH:
         m = re.fullmatch(rf'/repos/{REPO}/pulls/(\d+)/merge', url)
         assert m, url
         n = int(m.group(1))
-        sha = int(data['sha'])
+        # `sha` is the precondition "merge only if the PR head is still this commit"; without it GitHub merges whatever the head is
+        sha = int(data['sha']) if data and data.get('sha') is not None else None
         p = self.prs.get(n)
-        ok = bool(p and p['open'] and p['head'] == sha)
+        ok = bool(p and p['open'] and (sha is None or p['head'] == sha))
         if ok and self.reject_merges > 0:
             self.reject_merges -= 1
             ok = False
         self.h.on_merge_attempt(n, sha, ok)
         self.h.rec_heal['merges'].append(ok)
-        self.h.outs.append(f'merge:{n}:{sha}:{1 if ok else 0}')
+        self.h.outs.append(f"merge:{n}:{'none' if sha is None else sha}:{1 if ok else 0}")
         if not ok:
             raise self.h.g.gidgethub.HTTPException()
         p['open'] = False
@@ -296,20 +297,29 @@ class History:
             bad = sorted(f'{ctx_name(c)}={v}' for c, v in req.items() if v != 'success')
             if bad:
                 msgs.append('required checks of the head commit not all successful: ' + ', '.join(bad))
-            if sha != seen['head']:
+            if sha is not None and sha != seen['head']:
                 msgs.append(f'merge request for sha {sha} but the head GitHub last reported is {seen["head"]}')
             tgt = self.last_seen_target
-            good = [b for b in self.bc.batches if b.attributes.get('source_sha') == str(sha) and b.attributes.get('target_sha') == str(tgt)
+            csha = sha if sha is not None else seen['head']
+            good = [b for b in self.bc.batches if b.attributes.get('source_sha') == str(csha) and b.attributes.get('target_sha') == str(tgt)
                     and b.state == 'success']
             if not good:
-                have = [(b.id, b.attributes.get('target_sha'), b.state) for b in self.bc.batches if b.attributes.get('source_sha') == str(sha)]
-                msgs.append(f'no successful test batch of source {sha} against target {tgt} (batches of that source: {have})')
+                have = [(b.id, b.attributes.get('target_sha'), b.state) for b in self.bc.batches if b.attributes.get('source_sha') == str(csha)]
+                msgs.append(f'no successful test batch of source {csha} against target {tgt} (batches of that source: {have})')
             if accepted:
                 if not self.refreshed_since_merge:
                     msgs.append('second accepted merge without a GitHub refresh of the target branch in between')
                 self.refreshed_since_merge = False
-        if accepted and p is not None and sha != p['head']:
-            msgs.append('accepted merge of a stale head')
+        if accepted and p is not None:
+            # ground truth: GitHub merged the PR's head of this moment; that commit must be the tested one
+            merged = p['head']
+            if sha is not None and sha != merged:
+                msgs.append('accepted merge of a stale head')
+            tested = [b for b in self.bc.batches if b.attributes.get('source_sha') == str(merged) and b.state == 'success'
+                      and b.attributes.get('target_sha') == str(self.last_seen_target)]
+            if not tested:
+                msgs.append(f'GitHub merged head {merged}, a commit without a successful test batch against target {self.last_seen_target}'
+                            + (' (the merge request carried no `sha` precondition)' if sha is None else ''))
         if msgs:
             # does CI's PR object point at a batch that was created for ANOTHER pull request (same head commit)?
             rpr = self.wb.prs.get(n)
@@ -763,9 +773,31 @@ class C30(Prop):
         ops += [['notify_batch', []], ['update', []]]
         return {'ci_required': rng.random() < 0.7, 'ci_last': False, 'order_desc': rng.random() < 0.3, 'ops': ops}
 
+    def gen_push_race(self, rng):
+        """the author pushes a new commit after CI's last GitHub refresh; the old head's batch-completion callback is processed
+        before the push webhook: the merge request must carry the tested sha so that GitHub refuses it"""
+        k = rng.choice([1, 1, 2])
+        ops = [['open', i, 500 + 10 * i, 1, '00000'] for i in range(1, k + 1)]
+        ops += [['review', i, 'APPROVED'] for i in range(1, k + 1)]
+        ops.append(['notify_gh', []])
+        if rng.random() < 0.4:
+            ops.append(['status', 1, 1, 1, 'SUCCESS', 'StatusContext'])
+        victim = rng.randint(1, k)
+        steps = [['push', victim, 500 + 10 * victim + rng.randint(1, 5)]] + [['done', 0, 1] for _ in range(k)]
+        if rng.random() < 0.5:
+            steps = steps[1:2] + steps[:1] + steps[2:]
+        ops += steps
+        ops.append(['notify_batch', []])
+        if rng.random() < 0.5:
+            ops.append(['notify_batch', []])
+        ops += [['notify_gh', []], ['done', 0, 1], ['notify_batch', []], ['update', []]]
+        return {'ci_required': rng.random() < 0.7, 'ci_last': False, 'order_desc': False, 'ops': ops}
+
     def cases(self, rng, n, tier):
         for i in range(n):
-            if i % 8 == 7:
+            if i % 8 == 3:
+                yield self.gen_push_race(rng)
+            elif i % 8 == 7:
                 yield self.gen_directed(rng)
             else:
                 yield self.gen_history(rng, rng.choice([6, 10, 16, 24, 40]))
